@@ -117,6 +117,18 @@ func c10(c *core.Ctx) string {
 			fmt.Fprintf(os.Stderr, "%-10s %-10s %s @%s\n           %s\n", o.Verdict, o.Rule, o.Construct, o.Pos, o.Detail)
 		}
 	}
+	// shared rules: the client sees the last attempt's outcome only if a half-read response is never
+	// published (R-C07-5), and the breaker records one outcome per call (R-C08-6)
+	c.Alias("R-C07-5", "R-C10-6")
+	c.Rule("R-C07-5", "the outcome of an attempt is its classification: a backend response is published (spCtx.resp / SetOutputResponse) only after its body was fetched; a failed fetch leaves no response behind, so that handle() builds the 408/5xx (shared with R-C07-5)")
+	c07Resp(c)
+	c.Alias("R-C07-5", "")
+	if v := c08resolve(c); v != nil {
+		c.Alias("R-C08-6", "R-C10-7")
+		c.Rule("R-C08-6", "exactly one outcome per client request: the breaker wrapper records once per admitted call on the return and on the panic exit, never for a rejected call (shared with R-C08-6)")
+		c08Wrap(v)
+		c.Alias("R-C08-6", "")
+	}
 	return "Static shape and path rules on the retry wrapper and its use by the proxy server pool. Path-sensitive (flow engine, all paths of the closure returned by RetryPolicy.Wrap): a 2nd+ attempt happens only after the counter was stepped, the previous error is known non-nil, the timer case of a select with a ctx.Done() alternative was taken and the Done case was not; growth iff exponential; exits return the last attempt's error. AST/type rules: loop header bounds the counter to exactly MaxAttempts values, schema minimum 1, wait derives from waitDuration. In ServerPool.handle (path-sensitive): retry wraps only an unwrapped handler, only for non-stream requests; wrappers present iff configured; attempt closure resets resp and applies WithTimeout iff timeout > 0; doHandle's send-failure exits form the table nil/DeadlineExceeded/other -> 503/408/499, and exits after a failed response read must map DeadlineExceeded to 408/timeout. Not decided: durations, randomisation, timing, breaker internals (C08)."
 }
 
